@@ -103,12 +103,13 @@ Eta20 == <<501, 500>>
 (* get_kH_at_T).                                                                                  *)
 TDefault == <<5963, 20>>                         \* 298.15 K
 AtolDefault == <<1, 1000>>
+MDefault == <<2451987, 25000000>>                \* 98.07948e-3 kg/mol: the documented default molar mass (H2SO4)
 NoArgs == [T |-> QZero, P |-> QZero, w |-> QZero, c1 |-> QZero, c2 |-> QZero, c3 |-> QZero, z |-> QZero,
            D |-> QZero, H0 |-> QZero, Td |-> QZero, M |-> QZero, T0 |-> HenryT0, Tz |-> K0, eta20 |-> Eta20,
            atol |-> AtolDefault, em0 |-> QZero, em1 |-> QZero,
            sel |-> 0, impl |-> TRUE, wflag |-> "default", be |-> "default", via |-> "class"]
 DefaultOf(a) == CASE a = "T0" -> HenryT0 [] a = "Tz" -> K0 [] a = "eta20" -> Eta20 [] a = "T" -> TDefault
-                  [] a = "P" -> QOne [] a = "atol" -> AtolDefault
+                  [] a = "P" -> QOne [] a = "atol" -> AtolDefault [] a = "M" -> MDefault
 
 (* arguments that carry a unit, with the unit they are documented in *)
 DocUnits(f) ==
@@ -117,7 +118,7 @@ DocUnits(f) ==
       [] f = "water_diffusion" -> [a \in {"T"} |-> "K"]
       [] f = "water_permittivity" -> [a \in {"T", "P"} |-> IF a = "T" THEN "K" ELSE "bar"]
       [] f = "density_from_concentration" ->
-              [a \in {"T", "M", "atol"} |-> CASE a = "T" -> "K" [] a = "M" -> "kg/mol" [] a = "atol" -> "kg/m3"]  \* conc: see ConcGiven
+              [a \in {"T", "M", "atol", "Tz"} |-> CASE a = "T" -> "K" [] a = "M" -> "kg/mol" [] a = "atol" -> "kg/m3" [] a = "Tz" -> "K"]  \* conc: see ConcGiven
       [] f = "lg_solubility_ratio" -> [a \in {"c1", "c2", "c3"} |-> "M"]
       [] f = "henry_H" -> [a \in {"T", "H0", "Td", "T0"} |-> CASE a = "H0" -> "M/atm" [] OTHER -> "K"]
       [] f \in {"henry_c", "henry_roundtrip"} ->
@@ -187,8 +188,16 @@ Md3(n, c, uo) == [name |-> n, consts |-> c, uobj |-> uo]
 Md(n, c) == Md3(n, c, n \notin {"unitless", "none"})        \* default: units object iff quantities
 ConstModes(names) == {Md3("unitless", FALSE, FALSE)} \cup
                      ({ Md3(n, c, uo) : n \in names, c \in BOOLEAN, uo \in BOOLEAN } \ { Md3(n, FALSE, FALSE) : n \in names })
+(* array modes (second audit): EVERY unit-carrying argument is handed over as a two-element array *)
+(* (plain numpy array "uarray"; quantity array in the documented unit "qarray"); every element of  *)
+(* the result is judged.  For the relations whose signature accepts arrays for all arguments.      *)
+ArrayModeFns == {"water_permittivity", "henry_H", "henry_c", "henry_P", "nernst", "mobility"}
+ArrayModes(f) == IF f \in {"nernst", "mobility"}
+                 THEN {Md3("uarray", FALSE, FALSE), Md3("qarray", FALSE, TRUE), Md3("qarray", TRUE, FALSE)}
+                 ELSE IF f \in ArrayModeFns THEN {Md3("uarray", FALSE, FALSE), Md3("qarray", FALSE, TRUE)} ELSE {}
 ModesOf(f) ==
-    { m \in (IF f = "nernst" THEN ConstModes({"concplain", "units", "scaled"})
+    { m \in ArrayModes(f) \cup
+            (IF f = "nernst" THEN ConstModes({"concplain", "units", "scaled"})
              ELSE IF f = "mobility" THEN ConstModes({"units", "scaled"})
              ELSE IF f \in {"water_density", "water_diffusion", "sulfuric_acid_density"}
              THEN { Md(n, FALSE) : n \in {"unitless", "units", "scaledT"} }
@@ -200,6 +209,8 @@ UnitIn(f, a, m) ==
     CASE m.name = "unitless" -> "none"
       [] m.name = "concplain" -> IF a = "T" THEN DocUnits(f)[a] ELSE "none"
       [] m.name = "units" -> DocUnits(f)[a]
+      [] m.name = "uarray" -> "none"
+      [] m.name = "qarray" -> DocUnits(f)[a]
       [] m.name = "scaled" -> ScaledUnit(f, a)
       [] m.name = "scaledT" -> IF a \in {"T", "T0", "Tz"} THEN "mK" ELSE DocUnits(f)[a]
 DocOf(f, a, u) == IF u = "none" THEN DocUnits(f)[a] ELSE u
@@ -213,7 +224,7 @@ OptionalArgs(f) ==
       [] f = "water_viscosity" -> {"T", "eta20"}
       [] f = "water_diffusion" -> {"T"}
       [] f = "water_permittivity" -> {"T", "P"}
-      [] f = "density_from_concentration" -> {"T", "atol"}
+      [] f = "density_from_concentration" -> {"T", "atol", "M", "Tz"}
       [] f \in {"henry_H", "henry_c", "henry_P", "henry_roundtrip"} -> {"T0"}
       [] OTHER -> {}
 (* arguments that do not exist for this point (a salting-out mapping has 1, 2 or 3 ions) *)
@@ -397,6 +408,8 @@ Choose(f, ar) ==
 
 Call(m) ==
     /\ stage = "chosen" /\ m \in ModesOf(fn)
+    \* nernst_potential's default backend (math) takes scalars only: arrays go with backend = numpy
+    /\ (m.name \in {"uarray", "qarray"} => args.be # "math" /\ (fn = "nernst" => args.be = "numpy"))
     /\ mode' = m
     /\ given' = Given(fn, args, m)
     /\ warned' = (TOutside(fn, args) /\ WarnEnabled(fn, args))
@@ -500,6 +513,7 @@ CaseRec ==
                rtol |-> Rtol(fn, mode), atol |-> Atol(fn, args),
                unit |-> ResultUnit(fn), dim |-> DimPairs(UnitTable[ResultUnit(fn)].dim),
                warn |-> WarnExpectM(fn, args, mode), warned |-> warned,
+               inputs_unchanged |-> TRUE,          \* frame: Call leaves fn and args unchanged
                \* the fixed-point inverse documents a refusal (NoConvergence); it is accepted only
                \* where the iteration starts outside the correlation's range (w > 0.7)
                refusal |-> IF fn = "density_from_concentration" /\ QLt(<<7, 10>>, args.w)
